@@ -1887,3 +1887,68 @@ def k28_threshold_lookup_pure(core, rep):
         rep.ob('K28', f'{f.qual}/writes-nothing', not writes,
                f'{f.qual}, on the path of every statutory-amount lookup, stores state ({unparse(writes[0], 70) if writes else ""}): a value resolved for one form or filing status can be returned for another', _w(f, writes[0] if writes else None))
     rep.count('functions on the threshold lookup path', n)
+
+
+def prompt_functions(core):
+    """module-level functions that can be the solver's prompt callback: names reaching prompt= of a Solver(...) call"""
+    by_name = {}
+    for f in core.funcs:
+        by_name.setdefault(f.name, []).append(f)
+    out = []
+    for f in core.funcs:
+        for c in calls_in(f.node):
+            if call_name(c) != 'Solver':
+                continue
+            for kw in c.keywords:
+                if kw.arg != 'prompt':
+                    continue
+                cands = {n.id for n in ast.walk(kw.value) if isinstance(n, ast.Name)}
+                for x in ast.walk(f.node):
+                    if isinstance(x, ast.Assign) and any(isinstance(t, ast.Name) and t.id in cands for t in x.targets):
+                        cands |= {n.id for n in ast.walk(x.value) if isinstance(n, ast.Name)}
+                for n in cands:
+                    out += [g for g in by_name.get(n, []) if g.cls is None and g not in out]
+    return out
+
+
+def k29_prompt_quotes_the_waiters(core, rep):
+    """The prompt quotes, as the lines needing the input, exactly the waiting lines it was handed: inside the loop over
+    the waiters every part of the quoted text (form, copy, line name) is computed from the loop variable - nothing taken
+    from the missing input or from outside the loop stands in for a property of the waiting line."""
+    fns = prompt_functions(core)
+    if not fns:
+        raise AnalysisError('no prompt callback found (anchor vanished)')
+    n = 0
+    for f in fns:
+        params = [a.arg for a in f.node.args.args]
+        if len(params) < 2:
+            continue
+        waiters = params[1]
+        loops = [x for x in ast.walk(f.node) if isinstance(x, ast.For) and any(isinstance(nm, ast.Name) and nm.id == waiters for nm in ast.walk(x.iter))]
+        rep.ob('K29', f'{f.qual}/iterates-the-waiters', bool(loops), f'{f.qual} never goes through the list of waiting lines it is handed: the prompt cannot say which lines need the input', _w(f))
+        for lp in loops:
+            lv = {nm.id for nm in ast.walk(lp.target) if isinstance(nm, ast.Name)}
+            derived = set(lv)
+            changed = True
+            while changed:
+                changed = False
+                for x in ast.walk(lp):
+                    if isinstance(x, ast.Assign) and len(x.targets) == 1 and isinstance(x.targets[0], ast.Name) and x.targets[0].id not in derived:
+                        names = {nm.id for nm in ast.walk(x.value) if isinstance(nm, ast.Name)}
+                        if names and names <= derived:
+                            derived.add(x.targets[0].id)
+                            changed = True
+            # text built per waiter: f-strings assigned or appended inside the loop that mention a loop-derived name
+            for x in ast.walk(lp):
+                if not isinstance(x, ast.JoinedStr):
+                    continue
+                used = {nm.id for fv in x.values if isinstance(fv, ast.FormattedValue) for nm in ast.walk(fv.value) if isinstance(nm, ast.Name)}
+                if not used & derived:
+                    continue
+                n += 1
+                foreign = sorted(u for u in used if u not in derived)
+                rep.ob('K29', f'{f.qual}/quote@{unparse(x, 50)}', not foreign,
+                       f'{f.qual} describes a waiting line with `{", ".join(foreign)}`, which is not computed from that line (it comes from outside the loop over the waiters): '
+                       f'the prompt can name a form copy or line that never read the input', _w(f, x))
+    if n < 1:
+        raise AnalysisError('prompt callback: no per-waiter text found (anchor vanished)')
